@@ -26,7 +26,10 @@ EXTENDS Naturals, Sequences, FiniteSets, TLC, Json
 \* section without output directory in the manifest of an imported package
 \* with two listed versions (cfg.nver = 2): version2 / version2_import: the second listed version or its import is broken;
 \* evolution_first / evolution_last: the current model is incompatible with the first / the last listed version only
+\* reserved_namespace / import_reserved_namespace: the namespace of the package / of its deepest import is a name that the generated
+\* code of an enabled target uses itself (`Yardl`); found by generate's own check between validation and the first write
 Locations == {"none", "manifest", "outdir_missing", "import_manifest", "main", "import1", "import2", "version", "version_import",
+              "reserved_namespace", "import_reserved_namespace",
               "evolution", "duplicate_label", "bad_override", "version2", "version2_import", "evolution_first", "evolution_last"}
 \* an ill-typed model vs. a file that does not parse (only for model files).  "semantic" is an unknown type (found by resolveTypes);
 \* PassKinds has one more kind of semantic error per validation pass of dsl.Validate, because each pass walks the closure on its
@@ -57,6 +60,8 @@ NextLabel(done) == LET rest == SelectSeq(Labels, LAMBDA x : x \notin done) IN IF
 \* uses: whether importing packages actually reference types of the packages they import (an unused import that is broken
 \* must be reported all the same)
 Configs == { c \in [loc : Locations, kind : ErrKinds, targets : (SUBSET Targets) \ {{}}, out : OutStates, cmd : Commands, uses : BOOLEAN, nver : {1, 2}] :
+               /\ (c.loc \in {"reserved_namespace", "import_reserved_namespace"} =>
+                      c.kind = "semantic" /\ c.cmd = "generate" /\ c.targets \cap {"cpp", "python"} # {} /\ c.nver = 1 /\ c.uses)
                /\ (c.loc \in {"none", "manifest", "outdir_missing", "import_manifest", "evolution", "duplicate_label", "bad_override",
                               "evolution_first", "evolution_last"} => c.kind = "semantic")
                /\ (c.kind \in PassKinds => c.loc \in ModelLocs /\ c.uses /\ c.nver = 1 /\ c.out \in {"absent", "populated"})
@@ -75,7 +80,8 @@ ErrAt(l) == cfg.loc = l
 Fail(l) == errors' = errors \cup {l}
 
 Load == /\ phase = "start" /\ exit = "running"
-        /\ IF ErrAt("manifest") \/ ErrAt("outdir_missing") \/ ErrAt("import_manifest") THEN Fail(cfg.loc) /\ phase' = "failed"
+        /\ IF ErrAt("manifest") \/ ErrAt("outdir_missing") \/ ErrAt("import_manifest") \/ ErrAt("reserved_namespace") \/ ErrAt("import_reserved_namespace")
+           THEN Fail(cfg.loc) /\ phase' = "failed"
            ELSE phase' = "loaded" /\ UNCHANGED errors
         /\ UNCHANGED <<cfg, parsed, validatedVersions, evolved, written, generated, exit>>
 
